@@ -1,3 +1,9 @@
-From BT Require Import Base.ListX WhiteList.WhiteListModel WhiteList.WhiteListSpec WhiteList.WhiteListProofs.
-Check hw_monitor_accepts. Check hw_refines_set. Check sw_radio_implements_set. Check ref_radio_implements_set. Check monitor_exact.
-Print Assumptions hw_monitor_accepts. Print Assumptions sw_set_laws.
+From Coq Require Import Lia ZifyBool.
+From BT Require Import Base.ListX AttDb.AttDbModel AttDb.AttDbSpec.
+Local Open Scope N_scope.
+Definition extra (c : char_decl) : nat := N.to_nat (char_nattrs c - 2).
+Lemma char_nattrs_extra c : char_nattrs c = 2 + N.of_nat (extra c).
+Proof.
+  unfold extra, char_nattrs, char_nccc, len.
+  destruct (has_cccd c); destruct (is_some (c_name c)); cbv [b2n]. Show. 
+Abort.
